@@ -55,7 +55,7 @@ EXTENDS WireOps
 Pinned == {"export_path", "real_repr", "scope_any"}
 Flags == Pinned \cup {"keephost", "hdr_before_default", "minst_order",
                       "ns_drop_empty", "wrap_host_first", "name_host_first",
-                      "ns_shared"}
+                      "ns_shared", "refarray_inst_first", "edge_rstrip"}
 
 Arg(f, kb, pr, x) == [f |-> f, kb |-> kb, pr |-> pr, x |-> x]
 A0(f) == Arg(f, <<>>, <<>>, <<>>)
@@ -688,7 +688,28 @@ MRefShapes == (RefShapes \ {"ref"}) \cup {"refi"}
 MRefArrays == ("aref" :> <<"ref", "ref">>)
            @@ ("arefo" :> <<"refo", "refco">>)
            @@ ("arefh" :> <<"refh", "refcl", "refdo">>)
-MParamTree(name, via, sh) ==
+           @@ ("arefc" :> <<"refc", "refc">>)
+           @@ ("arefco" :> <<"refcl", "refo">>)
+           @@ ("arefch" :> <<"refch", "refl", "refcld">>)
+(* Case distinction on the items of an array of references: a CIM reference *)
+(* is an instance name or a class name; an array holds names of one kind or *)
+(* of both, and _methodcall's paramvalue() looks at the FIRST item to pick   *)
+(* the array element (VALUE.REFARRAY for names, VALUE.ARRAY otherwise).     *)
+(* Every kind has to occur (WireOpsImpl ASSUMEs it).                         *)
+RefArrayKinds == {"inst", "class", "inst-first", "class-first"}
+RefArrayKind(sh) ==
+  LET items == MRefArrays[sh]
+      k(i) == RefSpec(items[i]).k
+      homo == \A i \in DOMAIN items : k(i) = k(1) IN
+  IF homo THEN (IF k(1) = "i" THEN "inst" ELSE "class")
+  ELSE (IF k(1) = "i" THEN "inst-first" ELSE "class-first")
+(* regression flag "refarray_inst_first": paramvalue() recognises an array  *)
+(* of references by an INSTANCE name as first item only; every other list   *)
+(* becomes a VALUE.ARRAY (DTD: only VALUE and VALUE.NULL children)          *)
+MRefArrayTag(sh, via, V) ==
+  IF "refarray_inst_first" \in V /\ RefSpec(MRefArrays[sh][1]).k # "i"
+  THEN "VALUE.ARRAY" ELSE "VALUE.REFARRAY"
+MParamTree(name, via, sh, V) ==
   LET PV(ty, eo, kids) ==
         El("PARAMVALUE",
            <<<<"NAME", name>>>> \o OptAttr(ty # "", "PARAMTYPE", ty)
@@ -712,7 +733,7 @@ MParamTree(name, via, sh) ==
                         ELSE PV("", "", <<ValArray(<<>>)>>)
     [] sh \in DOMAIN MRefArrays ->
          PV("reference", "",
-            <<El("VALUE.REFARRAY", <<>>,
+            <<El(MRefArrayTag(sh, via, V), <<>>,
                  [i \in DOMAIN MRefArrays[sh] |-> RefVal(MRefArrays[sh][i])],
                  "none")>>)
     [] sh = "aei"  -> PV("string", "instance", <<ValArray(<<Val>>)>>)
@@ -747,7 +768,7 @@ MethodReq(c, Variant) ==
      <<El("METHODCALL", <<<<"NAME", "meth1">>>>,
           <<El(lform, <<>>, <<nsel, leaf>>, "none")>> \o
             [j \in 1..n |-> MParamTree(MParNames[j], pa.pr[2 * j - 1],
-                                       pa.pr[2 * j])],
+                                       pa.pr[2 * j], Variant)],
           "none")>>, "none")),
    hdr |-> [method |-> "meth1",
             form |-> IF badreal THEN "unparsable" ELSE "path",
@@ -1137,7 +1158,7 @@ ObjTree(c, V) ==
     [] c.kind = "inst"  -> InstanceXml(a, c.ign, V)
     [] c.kind = "class" -> ClassTree(a)
     [] c.kind = "prop"  -> PropTree("p1", c.pr[1])
-    [] c.kind = "param" -> MParamTree("mp1", "cp", c.pr[1])
+    [] c.kind = "param" -> MParamTree("mp1", "cp", c.pr[1], {})
 
 ObjDoc(c, V) ==
   [emit |-> TRUE,
@@ -1147,6 +1168,21 @@ ObjDoc(c, V) ==
 
 IsObjCase(c) == c.op = "#obj"
 DocOf(c, V) == IF IsObjCase(c) THEN ObjDoc(c, V) ELSE ImplReq(c, V)
+
+(* ---- _cim_http._quote_edge_blanks() -------------------------------------------------------- *)
+(* the extension header values (CIMMethod, CIMObject, CIMExportMethod) as   *)
+(* wbem_request() hands them to the transport: blanks at the edges of the   *)
+(* value are %-escaped, everything else is left as it is (values over       *)
+(* WireOps!HdrValues; "e" = %20).  lead = len(value) - len(value.lstrip()), *)
+(* trail = len(value) - lead - len(stripped).  Regression flag             *)
+(* "edge_rstrip": trail = len(value) - len(value.rstrip()).                 *)
+QuoteEdgeBlanks(v, V) ==
+  LET stripped == RStripB(LStripB(v))
+      lead == Len(v) - Len(LStripB(v))
+      trail == IF "edge_rstrip" \in V THEN Len(v) - Len(RStripB(v))
+               ELSE Len(v) - lead - Len(stripped) IN
+  IF stripped = v THEN v
+  ELSE [i \in 1..lead |-> "e"] \o stripped \o [i \in 1..trail |-> "e"]
 
 (* ---- comparison of a tree from the real code with the transcription ------------------------ *)
 (* (white space in element content = pretty-printed output is not a          *)
